@@ -357,6 +357,17 @@ class Memory:
                             if not cand.is_const():
                                 facts.add(cand)
         out.facts = frozenset(facts)
+        # variant guards: facts that hold only on one side are remembered per enum variant
+        loA = a.facts - out.facts
+        loB = b.facts - out.facts
+        if loA or loB:
+            for loc, v in list(out.locs.items()):
+                va, vb = a.locs.get(loc), b.locs.get(loc)
+                if va is None or vb is None or va is vb:
+                    continue
+                nv = self.attach_guards(v, va, vb, loA, loB, 0)
+                if nv is not v:
+                    out.locs[loc] = nv
         # known bits: intersection
         for s, d in a.bits.items():
             d2 = b.bits.get(s)
@@ -373,6 +384,56 @@ class Memory:
             n += 1
         out.notes = a.notes[:n]
         return out
+
+    def attach_guards(self, v, va, vb, loA, loB, depth):
+        if depth > 3:
+            return v
+        if isinstance(v, Enum) and isinstance(va, Enum) and isinstance(vb, Enum):
+            da, db = dict(va.variants), dict(vb.variants)
+            if set(da) == set(db) and not va.guards and not vb.guards:
+                # same variant sets: recurse into payloads only
+                return v
+            ga = dict(va.guards or ())
+            gb = dict(vb.guards or ())
+            gs = []
+            for vi, _ in v.variants:
+                sides = []
+                if vi in da:
+                    sides.append(ga.get(vi, frozenset()) | loA)
+                if vi in db:
+                    sides.append(gb.get(vi, frozenset()) | loB)
+                g = frozenset.intersection(*sides) if sides else frozenset()
+                if g:
+                    gs.append((vi, g))
+            return Enum(v.ty, v.variants, v.name, tuple(gs) if gs else None)
+        if isinstance(v, Struct) and isinstance(va, Struct) and isinstance(vb, Struct) and len(v.fields) == len(va.fields) == len(vb.fields):
+            fs = list(v.fields)
+            ch = False
+            for i in range(len(fs)):
+                if va.fields[i] is vb.fields[i]:
+                    continue
+                nf = self.attach_guards(fs[i], va.fields[i], vb.fields[i], loA, loB, depth + 1)
+                if nf is not fs[i]:
+                    fs[i] = nf
+                    ch = True
+            return Struct(v.ty, tuple(fs)) if ch else v
+        return v
+
+    def refine_enum(self, st, ev, keep):
+        """Restrict enum value ev to the variant indices in `keep`; the guards of the kept
+        variants that hold for all of them become facts of the state."""
+        vs = tuple(z for z in ev.variants if z[0] in keep)
+        if not vs:
+            raise Dead()
+        if ev.guards:
+            g = dict(ev.guards)
+            sets = [g.get(vi, frozenset()) for vi, _ in vs]
+            common = frozenset.intersection(*sets) if sets else frozenset()
+            for f in common:
+                st.add_fact(f, self.eng)
+            rest = tuple((vi, g[vi] - common) for vi, _ in vs if vi in g and (g[vi] - common))
+            return Enum(ev.ty, vs, ev.name, rest or None)
+        return Enum(ev.ty, vs, ev.name, None)
 
     def join_val(self, va, vb, name, phis, depth):
         eng = self.eng
